@@ -369,6 +369,9 @@ let run_estab linger toks =
    makes it submit its replies (once: the channel hands every message over at most once).  Packets are delivered in write
    order at once, except: x = dropped, u = delivered twice, l = 300 ms late, v = now and again 300 ms late.  Ticks by runner_next (first at +200 ms). *)
 let run_e2e toks =
+  let (wait, toks) = (match toks with
+      | w :: r when String.length w > 1 && w.[0] = 'w' -> (ios (String.sub w 1 (String.length w - 1)), r)
+      | l -> (7000, l)) in
   let faults = Hashtbl.create 8 in
   List.iter (fun t -> if String.length t >= 3 then
                 Hashtbl.add faults (String.sub t 1 (String.length t - 1)) t.[0]) toks;
@@ -381,29 +384,49 @@ let run_e2e toks =
   Hashtbl.replace tick SA 200;
   let handed = Hashtbl.create 8 in
   let cnt b x = List.length (Hashtbl.find_all handed (x, b)) in
+  let dir x = if x = SA then "a" else "b" in
+  (* transport write errors: f<dir><k> = the k-th write ATTEMPT of that side fails *)
+  let tries = Hashtbl.create 2 in
+  let tried x = try Hashtbl.find tries x with Not_found -> 0 in
+  let failing x = List.sort compare (List.filter_map (fun t ->
+      if String.length t >= 3 && t.[0] = 'f' && String.make 1 t.[1] = dir x then
+        (let g = ios (String.sub t 2 (String.length t - 2)) in if g >= tried x then Some (g - tried x) else None)
+      else None) toks) in
+  let fj x = match failing x with g :: _ -> Some (nat_of_int g) | [] -> None in
+  let account x o = (match o with
+      | OSubmit (l, er) | ODeliver (_, l, er) -> Hashtbl.replace tries x (tried x + List.length l + (if er = None then 0 else 1))
+      | OTick (_, l, _) -> Hashtbl.replace tries x (tried x + List.length l)
+      | _ -> ()) in
   let scan x before now =
     let sent = (ep_of !s x).e_sent in
     List.iteri (fun i _ -> if i >= before then begin
-        let key = (if x = SA then "a" else "b") ^ string_of_int i in
+        let key = dir x ^ string_of_int i in
         let put t = incr seqno; transit := !transit @ [(t, !seqno, other x, i)] in
         if has key 'v' && not (has key 'x') then put (now + 300);
         if has key 'x' then ()
         else if has key 'l' then put (now + 300)
         else begin put now; if has key 'u' then put now end
       end) sent in
+  let lac_up = ref true and lac_s = ref 0 in
+  (* returns true when the write of this submission failed (SendSession returned the transport error) *)
   let submit x b now =
     let before = List.length (ep_of !s x).e_sent in
-    s := fst (step false !s (Submit (x, zi b, Z0, zi now, None, false))); scan x before now in
+    let (s', o) = step false !s (Submit (x, zi b, Z0, zi now, fj x, false)) in
+    s := s'; account x o; scan x before now;
+    (match o with OSubmit (_, Some _) -> true | _ -> false) in
   let react x b now =
     Hashtbl.add handed (x, b) ();
     if cnt b x = 1 then
       (match x, b with
-       | SB, 1 -> Hashtbl.replace tick SB (now + 200); submit SB 2 now
-       | SA, 2 -> submit SA 3 now; submit SA 4 now
-       | SB, 4 -> submit SB 5 now
-       | SA, 5 -> submit SA 6 now
+       | SB, 1 -> Hashtbl.replace tick SB (now + 200); ignore (submit SB 2 now)
+       | SA, 2 ->
+         (* handleSCCRP returns on a failed SCCCN write before it opens the session *)
+         if not (submit SA 3 now) then begin incr lac_s; ignore (submit SA 4 now) end
+       | SB, 4 -> ignore (submit SB 5 now)
+       | SA, 5 -> ignore (submit SA 6 now)
        | _ -> ()) in
-  submit SA 1 0;
+  (* tryLACTunnel tears the tunnel down again when the SCCRQ cannot be written *)
+  if submit SA 1 0 then begin lac_up := false; Hashtbl.remove tick SA end;
   let now = ref 0 and settled = ref (-1) in
   let continue = ref true in
   while !continue do
@@ -414,24 +437,30 @@ let run_e2e toks =
        let (_, _, x, i) = List.find (fun (_, q', _, _) -> q' = q) !transit in
        transit := List.filter (fun (_, q', _, _) -> q' <> q) !transit;
        now := max !now tp;
-       let before = List.length (ep_of !s x).e_sent in
-       let (s', o) = step false !s (Deliver (x, nat_of_int i, zi !now, None, head_choice)) in
-       s := s'; scan x before !now;
-       let p = List.nth (ep_of !s (other x)).e_sent i in
-       (match o, p.k_body with ODeliver (true, _, _), Some b -> react x (iz b) !now | _ -> ())
+       if x = SA && not !lac_up then ()       (* no tunnel: ErrNoSuchTunnel *)
+       else if x = SB && cnt 1 SB = 0 && (List.nth (ep_of !s SA).e_sent i).k_body <> Some (zi 1) then ()
+       else begin
+         let before = List.length (ep_of !s x).e_sent in
+         let (s', o) = step false !s (Deliver (x, nat_of_int i, zi !now, fj x, head_choice)) in
+         s := s'; account x o; scan x before !now;
+         let p = List.nth (ep_of !s (other x)).e_sent i in
+         (match o, p.k_body with ODeliver (true, _, _), Some b -> react x (iz b) !now | _ -> ())
+       end
      | _, Some (tt, x) ->
        now := max !now tt;
        let before = List.length (ep_of !s x).e_sent in
-       let (s', o) = step false !s (Tick (x, zi !now, [])) in
-       s := s'; scan x before !now;
+       let drops = List.map nat_of_int (failing x) in
+       let (s', o) = step false !s (Tick (x, zi !now, drops)) in
+       s := s'; account x o; scan x before !now;
        (match o with OTick (ret, _, _) -> Hashtbl.replace tick x (iz (runner_next (zi 500) ret (zi !now))) | _ -> ())
      | _ -> continue := false);
     if cnt 5 SA >= 1 && cnt 6 SB >= 1 && !settled < 0 then settled := !now;
-    if (!settled >= 0 && !now > !settled + 700) || !now > 7000 then continue := false
+    if (!settled >= 0 && !now > !settled + 700) || !now > wait then continue := false
   done;
   let a = !s.s_a.e_ch and b = !s.s_b.e_ch in
-  Printf.sprintf "e2e lac=T1S%d,%d/%d lns=T%dS%d,%s est=%d%d" (cnt 2 SA) (iz a.c_ns) (iz a.c_nr)
-    (cnt 1 SB) (cnt 4 SB) (if cnt 1 SB = 0 then "-" else Printf.sprintf "%d/%d" (iz b.c_ns) (iz b.c_nr))
+  let sq c = Printf.sprintf "%d/%d" (iz c.c_ns) (iz c.c_nr) in
+  Printf.sprintf "e2e lac=T%dS%d,%s lns=T%dS%d,%s est=%d%d" (if !lac_up then 1 else 0) !lac_s (if !lac_up then sq a else "-")
+    (cnt 1 SB) (cnt 4 SB) (if cnt 1 SB = 0 then "-" else sq b)
     (min 1 (cnt 5 SA)) (min 1 (cnt 6 SB))
 
 let () =
